@@ -75,7 +75,8 @@ type (
 		Vars   []Binder
 		Body   Expr
 	}
-	EIte struct{ C, A, B Expr }
+	EIte  struct{ C, A, B Expr }
+	EIter struct{ X Expr }
 )
 
 type Binder struct {
@@ -109,7 +110,8 @@ func (e *ECall) String() string {
 	}
 	return e.F + "(" + strings.Join(a, ", ") + ")"
 }
-func (e *EOld) String() string { return "old(" + e.X.String() + ")" }
+func (e *EOld) String() string  { return "old(" + e.X.String() + ")" }
+func (e *EIter) String() string { return "iter(" + e.X.String() + ")" }
 func (e *EQuant) String() string {
 	q := "exists"
 	if e.Forall {
@@ -449,6 +451,12 @@ func (p *parser) primary() (Expr, error) {
 				}
 				return &EOld{args[0]}, nil
 			}
+			if t.s == "iter" {
+				if len(args) != 1 {
+					return nil, fmt.Errorf("iter takes one argument")
+				}
+				return &EIter{args[0]}, nil
+			}
 			if t.s == "ite" {
 				if len(args) != 3 {
 					return nil, fmt.Errorf("ite takes three arguments")
@@ -522,6 +530,10 @@ type Contract struct {
 	Inline    bool
 	FreshRes  bool
 	NonNilRes bool
+	SpawnMod  []ModLoc
+	SpawnEns  []*Clause
+	LoopStep  map[int][]*Clause
+	Variant   string
 }
 
 type ExpectCall struct {
@@ -556,7 +568,7 @@ type SpecFile struct {
 var topKeywords = map[string]bool{"ghost": true, "ufunc": true, "pred": true, "sfunc": true, "axiom": true, "lemma": true, "fn": true}
 var clauseKeywords = map[string]bool{"props": true, "requires": true, "ensures": true, "modifies": true, "loop": true, "safety": true,
 	"trusted": true, "pure": true, "noeffect": true, "nullable": true, "interference": true, "expect": true, "assert": true, "inline": true,
-	"freshresult": true, "nonnilresult": true, "uses": true}
+	"freshresult": true, "nonnilresult": true, "uses": true, "spawn": true}
 
 // extractSpecLines pulls the //@ lines out of a Go source text.
 func extractSpecLines(src string) []struct {
@@ -568,7 +580,7 @@ func extractSpecLines(src string) []struct {
 		Line int
 	}
 	for i, l := range strings.Split(src, "\n") {
-		t := strings.TrimSpace(l)
+		t := strings.TrimSpace(stripTrailingComment(l))
 		if strings.HasPrefix(t, "//@") {
 			out = append(out, struct {
 				Text string
@@ -851,7 +863,15 @@ func parseSpecText(src, pkg, file string, assumed bool) (*SpecFile, error) {
 			if pg == nil {
 				return nil, errf(s.line, "fn header needs a parameter list: %s", rest)
 			}
-			c := &Contract{Pkg: pkg, Func: strings.TrimSpace(rest[:pg[0]]), LoopInv: map[int][]*Clause{}, LoopMod: map[int][]ModLoc{}, Nullable: map[string]bool{}, File: file, Line: s.line, Assumed: assumed}
+			c := &Contract{Pkg: pkg, Func: strings.TrimSpace(rest[:pg[0]]), LoopInv: map[int][]*Clause{}, LoopMod: map[int][]ModLoc{}, LoopStep: map[int][]*Clause{}, Nullable: map[string]bool{}, File: file, Line: s.line, Assumed: assumed}
+			// trailing "variant NAME"
+			lastEnd := pg[1]
+			if rg != nil {
+				lastEnd = rg[1]
+			}
+			if tail := strings.Fields(rest[lastEnd+1:]); len(tail) == 2 && tail[0] == "variant" {
+				c.Variant = tail[1]
+			}
 			for _, p := range splitTopComma(rest[pg[0]+1 : pg[1]]) {
 				c.Params = append(c.Params, p)
 			}
@@ -909,8 +929,34 @@ func parseSpecText(src, pkg, file string, assumed bool) (*SpecFile, error) {
 						return nil, errf(s.line, "%v", err)
 					}
 					cur.LoopMod[k] = append(cur.LoopMod[k], m...)
+				case "step":
+					label, props, rest := parseLabel(rest)
+					e, err := parseExpr(rest)
+					if err != nil {
+						return nil, errf(s.line, "%v", err)
+					}
+					cur.LoopStep[k] = append(cur.LoopStep[k], &Clause{Kind: "step", Label: label, Props: props, E: e, Src: rest, Loop: k})
 				default:
-					return nil, errf(s.line, "loop clause must be invariant or modifies")
+					return nil, errf(s.line, "loop clause must be invariant, step or modifies")
+				}
+			case "spawn":
+				what, rest := firstWord(s.rest)
+				switch what {
+				case "modifies":
+					m, err := parseModLocs(rest)
+					if err != nil {
+						return nil, errf(s.line, "%v", err)
+					}
+					cur.SpawnMod = append(cur.SpawnMod, m...)
+				case "ensures":
+					label, props, rest := parseLabel(rest)
+					e, err := parseExpr(rest)
+					if err != nil {
+						return nil, errf(s.line, "%v", err)
+					}
+					cur.SpawnEns = append(cur.SpawnEns, &Clause{Kind: "spawnensures", Label: label, Props: props, E: e, Src: rest})
+				default:
+					return nil, errf(s.line, "spawn modifies|ensures")
 				}
 			case "safety":
 				cur.Safety = true
@@ -970,4 +1016,39 @@ func parseSpecText(src, pkg, file string, assumed bool) (*SpecFile, error) {
 		}
 	}
 	return sf, nil
+}
+
+
+// stripTrailingComment removes a "// ..." comment that follows contract text on a //@ line.
+func stripTrailingComment(l string) string {
+	t := strings.TrimSpace(l)
+	var start int
+	switch {
+	case strings.HasPrefix(t, "//@"):
+		start = strings.Index(l, "//@") + 3
+	case strings.HasPrefix(t, "// @"):
+		start = strings.Index(l, "// @") + 4
+	default:
+		return l
+	}
+	inStr := byte(0)
+	for i := start; i+1 < len(l); i++ {
+		c := l[i]
+		if inStr != 0 {
+			if c == '\\' && inStr == '"' {
+				i++
+			} else if c == inStr {
+				inStr = 0
+			}
+			continue
+		}
+		if c == '"' || c == '`' {
+			inStr = c
+			continue
+		}
+		if c == '/' && l[i+1] == '/' {
+			return l[:i]
+		}
+	}
+	return l
 }
